@@ -95,6 +95,15 @@ def gen(rng, tier):
                 c["message"] = (bytes.fromhex(c["message"]) + b"x" * (want - have)).hex()
                 n_huge += want > 2000
         cases.append(c)
+    # deterministic sweep over the literals harvested from the code under test: random splicing alone puts a given literal at the
+    # front of a given field too rarely to find a special case keyed on it
+    from .gitobj_common import source_tokens
+    for i, t in enumerate(source_tokens("bytes")):
+        for mode in (("pre",) if tier == "quick" else ("pre", "suf", "whole")):
+            f = {"pre": lambda v: t + v, "suf": lambda v: v + t, "whole": lambda v: t}[mode]
+            cases.append({"name": f(b"v1.0").hex(), "message": f(b"msg\n").hex(), "target": (bytes([i % 251 + 1]) * 20).hex(),
+                          "ttype": TTYPES[i % 5], "author": f(b"A U Thor <a@b>").hex(), "date": [1234567890 + i, 0, b"+0000".hex()],
+                          "synthetic": False, "md": 0, "md_val": ""})
     return cases
 
 
